@@ -17,7 +17,8 @@ LOCAL PP == INSTANCE PipelineProps
 OutFams  == {"xml", "soap11", "soap12", "json", "yaml", "msgpack", "mprpc", "http", "json_list"}
 Soap     == {"soap11", "soap12"}
 First    == {"Client", "Server", "X", "Clientele"}     \* ("Clientele...": begins like Client, is not the Client family)
-Subs     == {<<>>, <<"A">>, <<"b", "uu">>, <<"Q", "R", "S">>}
+\* ("cc": a code segment with a control character in it - what was said of such characters in messages holds for codes)
+Subs     == {<<>>, <<"A">>, <<"b", "uu">>, <<"Q", "R", "S">>, <<"cc">>}
 \* ctl: control characters (what XML 1.0 cannot carry at all): the fault arrives all the same - over the XML family with U+FFFD in
 \* their place ("same_repl" in an observation), over the others unchanged
 Msgs     == {"plain", "uni", "markup", "spaces", "long", "ctl"}
@@ -38,7 +39,9 @@ DetailTree(d) ==
 Dedicated == { [cls |-> "toolong",    code |-> <<"Client", "RequestTooLong">>],
                [cls |-> "notfound",   code |-> <<"Client", "ResourceNotFound">>],
                [cls |-> "notallowed", code |-> <<"Client", "RequestNotAllowed">>],
-               [cls |-> "auth",       code |-> <<"Client", "InvalidCredentialsError">>] }
+               [cls |-> "auth",       code |-> <<"Client", "InvalidCredentialsError">>],
+               \* the fault of the schema validator (spyne.protocol.xml.SchemaValidationError): the XML family has a writer of its own for it
+               [cls |-> "schemaval",  code |-> <<"Client", "SchemaValidationError">>] }
 
 Faults ==
   \* plain Fault objects and generated subclasses with an arbitrary dotted code
